@@ -94,7 +94,7 @@ def run_case(ctx: Ctx, e: dict, newexec: int, tag: str) -> list[dict]:
     return out
 
 
-def edit_history(ctx: Ctx, newexec: int, tag: str) -> None:
+def edit_history(ctx: Ctx, newexec: int, tag: str, check_valid=None) -> None:
     """subrun(sv(1)); edit sv; subrun(sv(1)) again on the same backend: the second result must be the
     edited task's (no stale answer for the subrun task from the single-reduction cache)."""
     import importlib.util
@@ -132,19 +132,20 @@ def edit_history(ctx: Ctx, newexec: int, tag: str) -> None:
         bk.check_cache = check_cache
         try:
             s, dr = simloop.make_scheduler(bk, limits={})
-            expr = subrun(mod.sv(1), executor="default", config=cfg, new_execution=bool(newexec),
-                          load_modules=[modname])
+            sub = subrun if check_valid is None else subrun.options(check_valid=check_valid)
+            expr = sub(mod.sv(1), executor="default", config=cfg, new_execution=bool(newexec),
+                       load_modules=[modname])
             o = simloop.run_controlled(s, dr, expr, execution_id=str(uuid.uuid4()))
             results.append(o.get("value", o["outcome"]))
         finally:
             simloop.close_backend(bk)
     ctx.count_eval()
     ctx.count_impl_trace()
-    ctx.distinct(["edit-history", newexec])
+    ctx.distinct(["edit-history", newexec, check_valid])
     if results != [11, 21]:
         stale_ultimate = results == [11, 11] and answers and answers[-1] == CacheResult.ULTIMATE
         ctx.violation(f"subrun(sv(1)) before / after editing sv returned {results}, direct evaluation gives [11, 21] "
-                      f"(new_execution={bool(newexec)}; cache answers for the subrun task: {[str(a) for a in answers]})",
+                      f"(new_execution={bool(newexec)}, check_valid={check_valid}; cache answers for the subrun task: {[str(a) for a in answers]})",
                       {"history": "subrun(sv(1)); edit sv: x+10 -> x+20; subrun(sv(1))", "newexec": newexec,
                        "results": results}, key="subrun-shallow-hit-after-edit" if stale_ultimate else None)
     if any(a == CacheResult.SINGLE for a in answers):
@@ -159,7 +160,8 @@ def edit_history(ctx: Ctx, newexec: int, tag: str) -> None:
 def run(ctx: Ctx) -> None:
     ctx.assume("the sub-scheduler shares the sqlite backend file of the calling scheduler")
     for ne in (0, 1):
-        edit_history(ctx, ne, f"h{ne}")
+        for cv in (None, "full", "shallow"):
+            edit_history(ctx, ne, f"h{ne}{cv or 'd'}", cv)
     cases = []
     n = ctx.pick(24, 300)
     fixed = [EL.call("twice", EL.V(3)), EL.call("boom", EL.V(1)), EL.call("safe", EL.V(2)),
